@@ -6,11 +6,14 @@ EXTENDS CodecCases, Json, SequencesExt
 VARIABLE c
 
 Singles == UNION {SingleCases(t) \cup TopCases(t) \cup LimitCases(t) : t \in Targets}
-PairTargets == {t \in Targets : <<t.obj, t.kind>> \in {<<"L1", "txbin">>, <<"D1", "txrlp">>, <<"H1", "header">>}}
-Pairs == UNION {PairCases(t) : t \in PairTargets}
+\* two-site cases: quick = three targets, thorough = every target
+SomeTargets == {t \in Targets : <<t.obj, t.kind>> \in {<<"L1", "txbin">>, <<"D1", "txrlp">>, <<"H1", "header">>}}
+PairsSome == UNION {PairCases(t) : t \in SomeTargets}
+PairsAll == UNION {PairCases(t) : t \in Targets}
 
 InitSingles == c \in Singles
-InitPairs == c \in Pairs
+InitPairsSome == c \in PairsSome
+InitPairsAll == c \in PairsAll
 Next == UNCHANGED c
 
 \* the property of the specification
@@ -23,12 +26,11 @@ Out(cs) == [id |-> cs.id, kind |-> cs.kind, site |-> cs.site, form |-> cs.form, 
 Tables == [legacySigned |-> LegacySigned, dynSigned |-> DynSigned, legacyHashed |-> LegacyHashed, dynHashed |-> DynHashed,
            headerSignedWithFee |-> HeaderSignedWithFee, headerSignedNoFee |-> HeaderSignedNoFee,
            maxClauses |-> MaxClauses, maxUnused |-> MaxUnused]
-ExportSingles == LET q == SetToSeq(Singles) IN
-                 /\ TLCGet("stats").distinct >= 0
-                 /\ ndJsonSerialize("cases.ndjson", [i \in 1..Len(q) |-> Out(q[i])])
-                 /\ JsonSerialize("tables.json", Tables)
-ExportPairs == LET q == SetToSeq(Pairs) IN
-                 /\ TLCGet("stats").distinct >= 0
-                 /\ ndJsonSerialize("cases.ndjson", [i \in 1..Len(q) |-> Out(q[i])])
-                 /\ JsonSerialize("tables.json", Tables)
+Export(cases) == LET q == SetToSeq(cases) IN
+             /\ TLCGet("stats").distinct >= 0
+             /\ ndJsonSerialize("cases.ndjson", [i \in 1..Len(q) |-> Out(q[i])])
+             /\ JsonSerialize("tables.json", Tables)
+ExportSingles == Export(Singles)
+ExportPairsSome == Export(PairsSome)
+ExportPairsAll == Export(PairsAll)
 =============================================================================
